@@ -210,16 +210,19 @@ class _AllAccept(And):
 
 
 def h_combination(ctx, cfg):
-    count = 1 + sym.pick(3, 'count')
+    count = 1 + sym.pick(cfg.get('count', 3), 'count')
     specs = U.gen_sigs(count, cfg['K'], cfg.get('total'))
     npos = max(sum(1 for k in s.kinds if k < 2) for s in specs)
-    n = 1 + sym.pick(npos + 1, 'n')
     allnm = []
     for s in specs:
         for nm in s.names:
             if nm not in allnm:
                 allnm.append(nm)
-    kws = tuple(nm for nm in allnm + [FOREIGN_NAME] if sym.flip('kw'))
+    if cfg.get('calls', True):
+        n = 1 + sym.pick(npos + 1, 'n')
+        kws = tuple(nm for nm in allnm + [FOREIGN_NAME] if sym.flip('kw'))
+    else:
+        n = 1; kws = ()
     avals = [sym.sym_val('av') for _ in range(n)]
     kvals = dict((nm, sym.sym_val('kv')) for nm in kws)
     with sym.notrace():
@@ -273,9 +276,12 @@ def plan(tier):
             dict(name='call-K1-D1', fn='h_call', depth=9, budget_s=300, cfg=dict(K=1, D=1),
                  bounds='decorated functions with <=1 named parameter x 1 layer x 3 placements x returning/raising body x calls n<=len+2, every keyword subset incl. own and foreign names; symbolic values',
                  min_nontrivial=300, must_reach=['same-result-as-composition', 'exception-propagates-unchanged']),
-            dict(name='combination-total2', fn='h_combination', depth=9, budget_s=300, cfg=dict(K=1, total=2),
-                 bounds='Combination of 1..3 functions with <=1 named parameter each, <=2 in total x calls; symbolic values',
-                 min_nontrivial=300, must_reach=['combination-same-result', 'combination-signature-sound']),
+            dict(name='combination-signature-total2', fn='h_combination', depth=9, budget_s=300, cfg=dict(K=1, total=2, calls=False),
+                 bounds='Combination of 1..3 functions with <=1 named parameter each, <=2 in total; signature soundness for sigtools.signature and inspect.signature',
+                 min_nontrivial=300, must_reach=['combination-signature-sound']),
+            dict(name='combination-calls-total1', fn='h_combination', depth=9, budget_s=300, cfg=dict(K=1, total=1, count=2),
+                 bounds='Combination of 1..2 functions with <=1 named parameter in total x calls n<=len+1, every keyword subset incl. foreign; symbolic values',
+                 min_nontrivial=300, must_reach=['combination-same-result']),
         ]
     return [
         dict(name='signature-K2-D3', fn='h_signature', depth=11, budget_s=3000, cfg=dict(K=2, D=3),
